@@ -192,6 +192,10 @@ impl EventLoops {
     /// Waiting for a read event to occur.
     /// This method can only be used in coroutines.
     pub fn wait_read_event(fd: c_int, timeout: Option<Duration>) -> std::io::Result<()> {
+        #[cfg(feature = "verif")]
+        if crate::verif::wait_requested(fd, false, timeout) {
+            return Err(Error::new(ErrorKind::Other, "verif: injected wait failure"));
+        }
         let event_loop = Self::event_loop();
         event_loop.add_read_event(fd)?;
         event_loop.wait_just(timeout)
@@ -200,6 +204,10 @@ impl EventLoops {
     /// Waiting for a write event to occur.
     /// This method can only be used in coroutines.
     pub fn wait_write_event(fd: c_int, timeout: Option<Duration>) -> std::io::Result<()> {
+        #[cfg(feature = "verif")]
+        if crate::verif::wait_requested(fd, true, timeout) {
+            return Err(Error::new(ErrorKind::Other, "verif: injected wait failure"));
+        }
         let event_loop = Self::event_loop();
         event_loop.add_write_event(fd)?;
         event_loop.wait_just(timeout)
